@@ -237,7 +237,23 @@ func CheckOwnership(res *ChurnResult) (findings []Finding, keysSeen int) {
 	ids := append([]uint64{}, res.Live...)
 	sort.Slice(ids, func(i, j int) bool { return ids[i] < ids[j] })
 	holders := map[string][]uint64{}
+	// union of the two views a store offers on its contents: the range scan and the listing
+	merged := map[uint64][]string{}
 	for id, keys := range res.Stores {
+		merged[id] = append(merged[id], keys...)
+	}
+	for id, keys := range res.Listed {
+		have := map[string]bool{}
+		for _, k := range merged[id] {
+			have[k] = true
+		}
+		for _, k := range keys {
+			if !have[k] {
+				merged[id] = append(merged[id], k)
+			}
+		}
+	}
+	for id, keys := range merged {
 		for _, k := range keys {
 			keysSeen++
 			holders[k] = append(holders[k], id)
